@@ -93,7 +93,9 @@ CLAIMED = {
         "decided on the implementation by a metamorphic correspondence: base / re-layout / permutation (top level and inside "
         "namespaces) / split into one or two imported files, through parse and generation of all targets, comparing acceptance, "
         "diagnostics modulo position and every generated file with the banner line removed. Re-formatting: the parser model looks at token types only - "
-        "texts whose token streams agree on (type, text) get the same parse tree up to positions, for every grammar (C11_reformatting).",
+        "texts whose token streams agree on (type, text) get the same parse tree up to positions, for every grammar (C11_reformatting); line breaks isolate: "
+        "for the token rules translated from Idl.g4 (computable side condition table_ok, decided by vm_compute) the lexemes in front of a line break do not depend on "
+        "anything that follows it (C11_line_break_isolates_what_precedes, from prefix determinacy of the pattern matcher), and lexing continues from a boundary depending only on the position.",
    note="Trusted: Coq kernel; the real pipeline is the subject of the metamorphic runs (no model of the generators here). Known "
         "finding C11-K1 (order decides which of two colliding declarations survives; consequence of C15).",
    technique="Coq proof (permutation/split invariance of diagnostics and bindings) + metamorphic comparison of the implementation's outputs", design="7/C11"),
@@ -126,9 +128,10 @@ CLAIMED = {
         "@deprecated messages changed on every commentable construct, code compared after removing comments and message literals. Translation phases that run "
         "before comments are recognised are modelled (Lang/Lexical.v): Java's unicode escapes (JLS 3.3 automaton) and C-family line splicing; theorems: the Javadoc "
         "comment as written contains no backslash-u pair, javac reads exactly the written text and it closes once at its end; no physical line of a generated '//' "
-        "comment ends in a backslash; both statements are refuted (with witnesses) for the code before the repairs.",
+        "comment ends in a backslash; no character that str.splitlines() (Jinja's indent filter) treats as a line break survives the comment filter or the escape of a "
+        "@deprecated message; all statements are refuted (with witnesses) for the code before the repairs.",
    note="Trusted: Coq kernel+vm_compute; mistune and the Markdown renderers (arbitrary string in the theorems); the harness' lexical "
-        "stripper. Four defects repaired (c68de42 terminator, 02a4a46 backslash, 1e35a17 Java unicode escapes, e1f57ae line splicing).",
+        "stripper. Six defects repaired (c68de42 terminator, 02a4a46 backslash, 1e35a17 Java unicode escapes, e1f57ae line splicing, f0a7094 and 9bbb2ef line separators).",
    technique="Coq proof over all strings (comment filter, literal escaping) + vm_compute correspondence + metamorphic non-interference runs", design="7/C12"),
  'C18': dict(
    text="Coq refinement proof for a Gallina state-machine model of validate() and the request handlers: for EVERY event sequence "
